@@ -294,6 +294,12 @@ func genAgentCase(r *vh.Rng) (bindCase, bool) {
 }
 
 func genAgent(rng *vh.Rng, n int, emit func(id string, sel int, in []int64, kind string, nontrivial bool, desc any)) {
+	qr := rng.Fork()
+	for i := 0; i < max(3, n/60); i++ {
+		b := podsFullCase(qr.Fork(), true)
+		emit(fmt.Sprintf("agent-podsfull-%d", i), 3, b.enc(), "bind/agent/podsfull", true,
+			map[string]any{"directed": "pod capacity nearly used up, more small pods than slots", "items": len(b.Items), "workers": b.Workers})
+	}
 	k := n/3 + 1
 	for i := 0; i < k; i++ {
 		r := rng.Fork()
